@@ -1,0 +1,28 @@
+//go:build verif
+// +build verif
+
+package soyhtml
+
+import "github.com/robfig/soy/ast"
+
+// Observation points for the /verif harness (build tag "verif" only).
+
+// VerifLookup, if set, is called for every variable lookup with the key and
+// whether some scope frame bound it.
+var VerifLookup func(key string, bound bool)
+
+// VerifAt, if set, is called whenever the interpreter moves to a node. It may
+// block, which lets the harness impose a schedule on concurrent renders.
+var VerifAt func(node ast.Node)
+
+func verifLookup(key string, bound bool) {
+	if f := VerifLookup; f != nil {
+		f(key, bound)
+	}
+}
+
+func verifAt(node ast.Node) {
+	if f := VerifAt; f != nil {
+		f(node)
+	}
+}
